@@ -33,7 +33,7 @@ class Policy:
 		self.rng = rng
 		self.replay_picks = list(picks) if picks is not None else None
 		self.picks_out = []
-		self.preempt_at = set(preempt_at or ())
+		self.preempt_at = set(tuple(x) if isinstance(x, (list, tuple)) else x for x in (preempt_at or ()))
 		self.preempted_out = []
 		self.walk_p = walk_p
 		self.replay = picks is not None
@@ -81,6 +81,7 @@ class SimThread:
 		self.death = None
 		self.daemon = True
 		self.just_preempted = False
+		self.wake_at = None
 
 	def _bootstrap(self):
 		sim = self.sim
@@ -144,6 +145,9 @@ class Sim:
 		self.switch_sig = []  # (thread, file:line) of every pre-emption taken
 		self.trace_files = ()
 		self.record_hook = None
+		self.win_time = None   # virtual instant of the current race window
+		self.win_idx = 0       # decision points seen in it
+		self.point_log = None  # when a list: (key, thread, file:line) of every decision point
 		self.faults = None  # seams.FaultScript
 		self.clock_offset = 0  # what monotonic_ns() reads at virtual time 0
 		self.lock_contention = 0
@@ -273,8 +277,11 @@ class Sim:
 				sim.line_events += 1
 				t = sim.current
 				if t is not None and sim.others_runnable(t):
-					sim.point_no += 1
-					if sim.policy.preempt(sim.point_no):
+					key = sim.next_point()
+					if sim.point_log is not None:
+						code = frame.f_code
+						sim.point_log.append((key, t.name, "%s:%d" % (code.co_filename.rsplit("/", 1)[-1], frame.f_lineno)))
+					if sim.policy.preempt(key):
 						code = frame.f_code
 						sim.switch_sig.append((t.name, "%s:%d" % (
 							code.co_filename.rsplit("/", 1)[-1], frame.f_lineno)))
@@ -290,14 +297,26 @@ class Sim:
 
 		self.tracer = tracer
 
+	def next_point(self):
+		"""Key of the next pre-emption decision point: (virtual instant, index within it).  Keys
+		of one instant do not depend on what happened in earlier race windows."""
+		if self.now != self.win_time:
+			self.win_time = self.now
+			self.win_idx = 0
+		self.win_idx += 1
+		self.point_no += 1
+		return (self.win_time, self.win_idx)
+
 	def sync_point(self, label):
 		"""A pre-emption point at a synchronisation call (lock acquire/release) in fine mode."""
 		if self.tracer is None:
 			return
 		t = self.current
 		if t is not None and self.others_runnable(t):
-			self.point_no += 1
-			if self.policy.preempt(self.point_no):
+			key = self.next_point()
+			if self.point_log is not None:
+				self.point_log.append((key, t.name, label))
+			if self.policy.preempt(key):
 				self.switch_sig.append((t.name, label))
 				self.yield_now(t)
 
